@@ -176,6 +176,8 @@ def run(prog: Program, rep: Report, tier: str) -> None:
     rep.rule("R2.2", "argument wiring by role: session<-this call's login reply[8:12], timestamp<-this call's clock reading, device id/key<-configuration, each argument hole<-the same-named argument through its encoder's normal form and accepted range", 40)
     rep.rule("R2.4", "reject-before-send: every argument rejection raises inside an encoder before the command frame is written, and the expected rejections exist", 8)
     rep.rule("R2.5", "configuration is immutable: _device_id/_device_key/_port/_ip_address are stored only in SwitcherApi.__init__, from the same-named parameter", 4)
+    rep.rule("R2.7", "days given as a sequence (the encoder accepts lists and tuples as well as sets): a command frame is written only when the sequence is empty or duplicate-free "
+                      "(len(days) == len(set(days))); a sequence naming a day twice is refused before the command frame, never sent as some other day set", 2)
     rep.rule("R2.6", "clock strings are validated as a whole: the split result is bounded to exactly two components (or a whole-string parse guards the result)", 1)
     rep.assumptions += A.ASSUMPTIONS
     rep.trusted += [
@@ -271,6 +273,7 @@ def run(prog: Program, rep: Report, tier: str) -> None:
     rep.extra["programs"] = programs
     config_sweep(prog, rep)
     clock_split_rule(prog, rep)
+    days_sequence_rule(prog, rep)
 
 
 def config_sweep(prog: Program, rep: Report) -> None:
@@ -361,3 +364,78 @@ def _has_whole_param(g: Any, p: T.Term) -> bool:
             return False
         return any(_has_whole_param(x, p) for x in g)
     return False
+
+
+def days_sequence_rule(prog: Program, rep: Report) -> None:
+    """R2.7: create_schedule with `days` typed as a list (the other runs type it as the annotated Set)."""
+    dtype = ("enum", "aioswitcher.schedule:Days")
+    days = ("sym", "days", ("list", dtype))
+    try:
+        I, outs, fi = A.run_operation(prog, "create_schedule", retype={"days": ("list", dtype)})
+    except AnalysisError as e:
+        rep.undecided("R2.7", "create_schedule with a sequence of days", "-", f"not analysable: {e}")
+        return
+    where = f"{loc(fi, fi.node)} {fi.qualname}"
+    ln, lset = ("len", days), ("len", ("app", "set", days))
+    dup = {("cmp", "!=", ln, lset), ("cmp", "!=", lset, ln), ("cmp", "<", lset, ln), ("cmp", ">", ln, lset)}
+    nodup = {("cmp", "==", ln, lset), ("cmp", "==", lset, ln)}
+    empty = {("not", ("truthy", days)), ("cmp", "<=", ln, c(0)), ("cmp", "==", ln, c(0)), ("cmp", "<", ln, c(1))}
+    sent_dup = [o for o in outs if len(A.writes(o)) >= 2 and any(g in dup for g in o.state.pc) and not A.excluded_by_assumptions(o.state.pc)]
+    sent = [o for o in outs if len(A.writes(o)) >= 2 and not A.excluded_by_assumptions(o.state.pc)]
+    nonempty = {("truthy", days), ("cmp", ">", ln, c(0)), ("cmp", "!=", ln, c(0)), ("cmp", ">=", ln, c(1))}
+
+    def under_dup(g: Any, depth: int = 0, isdup: bool = True) -> Optional[bool]:
+        """Three-valued value of a guard for a non-empty sequence that names a day twice (isdup) or names no day twice
+        (not isdup); None: depends on other things."""
+        if depth > 12 or not isinstance(g, tuple) or not g:
+            return None
+        if g in nonempty:
+            return True
+        if g in empty:
+            return False
+        if g in dup:
+            return isdup
+        if g in nodup:
+            return not isdup
+        if T.is_c(g):
+            return bool(g[1])
+        if g[0] == "not" and len(g) == 2:
+            r = under_dup(g[1], depth + 1, isdup)
+            return None if r is None else not r
+        if g[0] in ("and", "or"):
+            rs = [under_dup(x, depth + 1, isdup) for x in g[1:]]
+            if g[0] == "and":
+                return False if any(r is False for r in rs) else True if all(r is True for r in rs) else None
+            return True if any(r is True for r in rs) else False if all(r is False for r in rs) else None
+        if g[0] == "cmp" and g[1] in ("is not", "is") and len(g) == 4 and T.is_c(g[3]) and g[3][1] is None:
+            x = g[2]
+            while isinstance(x, tuple) and x[:1] == ("ite",) and len(x) == 4:
+                cnd = under_dup(x[1], depth + 1, isdup)
+                if cnd is None:
+                    return None
+                x = x[2] if cnd else x[3]
+            if T.is_c(x):
+                isnone = x[1] is None
+            elif x == days:
+                isnone = False
+            else:
+                return None
+            return isnone if g[1] == "is" else not isnone
+        return None
+
+    # a refusal: a path that raises before the command frame, is possible for a duplicate-bearing sequence and impossible for a duplicate-free one
+    refused = [o for o in outs if o.kind == "raise" and len(A.writes(o)) <= 1 and not any(under_dup(g) is False for g in o.state.pc)
+               and any(under_dup(g, 0, False) is False for g in o.state.pc)]
+    unguarded = [o for o in sent if not any(under_dup(g) is False for g in o.state.pc) and not any(g in dup for g in o.state.pc)]
+    if not sent:
+        rep.undecided("R2.7", "create_schedule with a sequence of days", where, "no path writes the command frame")
+        return
+    rep.check(not sent_dup, "R2.7", "a duplicate-bearing sequence is never sent", where,
+              f"{len(sent_dup)} path(s) write the command frame although len(days) != len(set(days)) (a sequence naming a day twice): "
+              f"the frame then encodes some other day set; guard {T.show(conj(sent_dup[0].state.pc[-4:]))[:300] if sent_dup else ''}", key="R2.7|sent-dup")
+    if unguarded:
+        rep.undecided("R2.7", "the command frame is guarded by the duplicate test", where,
+                      f"{len(unguarded)} path(s) write the command frame under a guard that neither states nor excludes len(days) == len(set(days)): {T.show(conj(unguarded[0].state.pc[-4:]))[:300]}")
+    else:
+        rep.check(bool(refused), "R2.7", "duplicates are refused before the command frame", where,
+                  "no path raises with only the login frame written when len(days) != len(set(days))", key="R2.7|refused")
